@@ -328,32 +328,63 @@ Proof.
   intros H. apply Nat.eqb_eq in H. subst. reflexivity.
 Qed.
 
-Lemma step_run s i e s' : gstep s i e s' -> run (owns s i) (todo s i) <> None ->
+(* the same step seen abstractly (what refinements such as ClientConcProofs establish): thread i
+   consumes its next event, the other threads' remaining events are unchanged, the owner field
+   changes as the mutex prescribes *)
+Definition lstep (s : gst) (i : nat) (e : event) (s' : gst) : Prop :=
+  exists r, todo s i = e :: r /\ todo s' i = r /\ (forall j, j <> i -> todo s' j = todo s j) /\
+    match e with
+    | EAcq => owner s = None /\ owner s' = Some i
+    | ERel => owner s' = None
+    | EUse => owner s' = owner s
+    end.
+
+Lemma gstep_lstep s i e s' : gstep s i e s' -> lstep s i e s'.
+Proof.
+  intros H. inversion H; subst; eexists; (split; [eassumption|]); cbn [owner todo];
+    (split; [apply upd_same|]); (split; [intros j Hj; apply upd_other; exact Hj|]); auto.
+Qed.
+
+Lemma lstep_run s i e s' : lstep s i e s' -> run (owns s i) (todo s i) <> None ->
   (forall j, run (owns s' j) (todo s' j) = run (owns s j) (todo s j)) /\
   match e with EAcq => owner s = None | ERel => owner s = Some i | EUse => owner s = Some i end.
 Proof.
-  intros Hst Hi.
-  inversion Hst as [s0 i0 r Ht Ho | s0 i0 r Ht | s0 i0 r Ht]; subst; rewrite Ht in Hi; cbn [run] in Hi.
+  intros (r & Ht & Ht' & Hoth & Hown) Hi. rewrite Ht in Hi.
+  assert (Hne : forall j, j <> i -> Nat.eqb i j = false) by (intros j Hj; apply Nat.eqb_neq; congruence).
+  destruct e; cbn [run] in Hi.
   - (* acquire *)
-    split; [|exact Ho]. intros j. unfold owns. cbn [owner todo]. rewrite Ho.
-    destruct (Nat.eq_dec j i) as [->|Hne].
-    + rewrite upd_same, Nat.eqb_refl, Ht. reflexivity.
-    + rewrite upd_other by exact Hne.
-      assert (E : Nat.eqb i j = false) by (apply Nat.eqb_neq; congruence). rewrite E. reflexivity.
+    destruct Hown as [Ho Ho']. split; [|exact Ho]. intros j. unfold owns. rewrite Ho, Ho'.
+    destruct (Nat.eq_dec j i) as [->|Hj].
+    + rewrite Nat.eqb_refl, Ht, Ht'. reflexivity.
+    + rewrite (Hoth j Hj), (Hne j Hj). reflexivity.
   - (* release *)
     destruct (owns s i) eqn:Eo; [|congruence]. pose proof (owns_true _ _ Eo) as Ho.
-    split; [|exact Ho]. intros j. unfold owns. cbn [owner todo]. rewrite Ho.
-    destruct (Nat.eq_dec j i) as [->|Hne].
-    + rewrite upd_same, Nat.eqb_refl, Ht. reflexivity.
-    + rewrite upd_other by exact Hne.
-      assert (E : Nat.eqb i j = false) by (apply Nat.eqb_neq; congruence). rewrite E. reflexivity.
+    split; [|exact Ho]. intros j. unfold owns. rewrite Ho, Hown.
+    destruct (Nat.eq_dec j i) as [->|Hj].
+    + rewrite Nat.eqb_refl, Ht, Ht'. reflexivity.
+    + rewrite (Hoth j Hj), (Hne j Hj). reflexivity.
   - (* guarded access *)
     destruct (owns s i) eqn:Eo; [|congruence]. pose proof (owns_true _ _ Eo) as Ho.
-    split; [|exact Ho]. intros j. unfold owns. cbn [owner todo]. rewrite Ho.
-    destruct (Nat.eq_dec j i) as [->|Hne].
-    + rewrite upd_same, Nat.eqb_refl, Ht. reflexivity.
-    + rewrite upd_other by exact Hne. reflexivity.
+    split; [|exact Ho]. intros j. unfold owns. rewrite Hown, Ho.
+    destruct (Nat.eq_dec j i) as [->|Hj].
+    + rewrite Nat.eqb_refl, Ht, Ht'. reflexivity.
+    + rewrite (Hoth j Hj). reflexivity.
 Qed.
+
+Lemma lstep_inv_complete s i e s' : inv_complete s -> lstep s i e s' ->
+  inv_complete s' /\
+  match e with EAcq => owner s = None | ERel => owner s = Some i | EUse => owner s = Some i end.
+Proof.
+  intros Hinv Hst.
+  assert (Hi : run (owns s i) (todo s i) <> None) by (rewrite Hinv; discriminate).
+  destruct (lstep_run _ _ _ _ Hst Hi) as [Hall He]. split; [|exact He].
+  intros j. rewrite Hall. apply Hinv.
+Qed.
+
+Lemma step_run s i e s' : gstep s i e s' -> run (owns s i) (todo s i) <> None ->
+  (forall j, run (owns s' j) (todo s' j) = run (owns s j) (todo s j)) /\
+  match e with EAcq => owner s = None | ERel => owner s = Some i | EUse => owner s = Some i end.
+Proof. intros H. apply lstep_run. apply gstep_lstep. exact H. Qed.
 
 Lemma step_inv s i e s' : inv s -> gstep s i e s' ->
   inv s' /\ match e with EAcq => owner s = None | ERel => owner s = Some i | EUse => owner s = Some i end.
@@ -458,4 +489,105 @@ Proof.
   intros Hc Ht Hex. pose proof (init_inv _ _ _ Hc Ht) as Hinv. split.
   - exact (proj2 (mutual_exclusion _ _ _ Hinv Hex)).
   - intros i j. exact (at_most_one_owner _ _ _ Hinv Hex i j).
+Qed.
+
+(* ============================================================================================ *)
+(* Part 3: function values.  The translator cannot see where a closure, or a function or method
+   used as a value, is called; the obligation therefore requires their (inlined) bodies to be
+   neutral.  Neutral code performs no lock event at all, so calling it anywhere is harmless. *)
+
+Lemma neutral_nl l :
+  (fix nl (l : list cstmt) : bool := match l with [] => true | y :: r => neutral y && nl r end) l
+  = forallb neutral l.
+Proof. induction l as [|y l IH]; [reflexivity|]. cbn [forallb]. rewrite <- IH. reflexivity. Qed.
+
+Lemma neutral_branch a b : neutral (CBranch a b) = forallb neutral a && forallb neutral b.
+Proof. cbn [neutral]. rewrite !neutral_nl. reflexivity. Qed.
+Lemma neutral_loop b : neutral (CLoop b) = forallb neutral b.
+Proof. cbn [neutral]. rewrite neutral_nl. reflexivity. Qed.
+Lemma neutral_scope b : neutral (CScope b) = forallb neutral b.
+Proof. cbn [neutral]. rewrite neutral_nl. reflexivity. Qed.
+
+Definition nitem (it : item) : bool :=
+  match it with IStmt s => neutral s | IAgain b => forallb neutral b end.
+Definition nitems (l : list item) : bool := forallb nitem l.
+Definition nframes (k : list frame) : bool :=
+  forallb (fun f => nitems (fst f) && Nat.eqb (snd f) 0) k.
+
+Lemma nitems_code c : nitems (code c) = forallb neutral c.
+Proof. unfold nitems, code. induction c as [|y c IH]; [reflexivity|]. cbn. rewrite IH. reflexivity. Qed.
+Lemma nitems_app a b : nitems (a ++ b) = nitems a && nitems b.
+Proof. unfold nitems. apply forallb_app. Qed.
+Lemma nitems_to_again r : nitems r = true -> nitems (to_again r) = true.
+Proof.
+  induction r as [|it r IH]; [auto|]. destruct it; cbn [to_again].
+  - intros H. apply IH. cbn in H. apply andb_prop in H. tauto.
+  - auto.
+Qed.
+
+Lemma neutral_no_events n c d k t st :
+  tr n c d k t st -> nitems c = true -> d = 0 -> nframes k = true -> t = [].
+Proof.
+  induction 1; intros Hc Hd Hk; try reflexivity; try discriminate;
+    try (cbn in Hc; discriminate).
+  - (* pop *)
+    cbn in Hk. apply andb_prop in Hk. destruct Hk as [Hf Hk]. apply andb_prop in Hf. destruct Hf as [Hf1 Hf2].
+    apply Nat.eqb_eq in Hf2. cbn in Hf1, Hf2. auto.
+  - (* branch left *)
+    cbn [nitems forallb nitem] in Hc. rewrite neutral_branch in Hc.
+    apply andb_prop in Hc. destruct Hc as [Hab Hr]. apply andb_prop in Hab. destruct Hab as [Ha Hb].
+    apply IHtr; auto. rewrite nitems_app, nitems_code, Ha. exact Hr.
+  - (* branch right *)
+    cbn [nitems forallb nitem] in Hc. rewrite neutral_branch in Hc.
+    apply andb_prop in Hc. destruct Hc as [Hab Hr]. apply andb_prop in Hab. destruct Hab as [Ha Hb].
+    apply IHtr; auto. rewrite nitems_app, nitems_code, Hb. exact Hr.
+  - (* loop *)
+    cbn [nitems forallb nitem] in Hc. rewrite neutral_loop in Hc.
+    apply IHtr; auto.
+  - (* leave the loop *)
+    cbn [nitems forallb nitem] in Hc. apply andb_prop in Hc. destruct Hc as [_ Hr]. apply IHtr; auto.
+  - (* one more iteration *)
+    pose proof Hc as Hc'. cbn [nitems forallb nitem] in Hc'. apply andb_prop in Hc'. destruct Hc' as [Hb Hr].
+    apply IHtr; auto. rewrite nitems_app, nitems_code, Hb. exact Hc.
+  - (* break *)
+    cbn [nitems forallb nitem] in Hc. apply andb_prop in Hc. destruct Hc as [_ Hr].
+    apply nitems_to_again in Hr. rewrite H in Hr. cbn [nitems forallb] in Hr.
+    apply andb_prop in Hr. destruct Hr as [_ Hr]. apply IHtr; auto.
+  - (* continue *)
+    cbn [nitems forallb nitem] in Hc. apply andb_prop in Hc. destruct Hc as [_ Hr].
+    apply nitems_to_again in Hr. rewrite H in Hr. apply IHtr; auto.
+  - (* return *)
+    apply IHtr; auto.
+  - (* call *)
+    cbn [nitems forallb nitem] in Hc. rewrite neutral_scope in Hc.
+    apply andb_prop in Hc. destruct Hc as [Hb Hr]. subst d.
+    apply IHtr; auto.
+    + rewrite nitems_code. exact Hb.
+    + cbn [nframes forallb fst snd]. unfold nitems in Hr |- *. rewrite Hr. exact Hk.
+Qed.
+
+Theorem neutral_sound c : neutral_list c = true -> forall t st, thread_trace c t st -> t = [].
+Proof.
+  intros H t st [n Ht]. eapply neutral_no_events; eauto.
+  rewrite nitems_code. exact H.
+Qed.
+
+(* under the regenerated obligation, everything callable through a function value is neutral *)
+Theorem function_values_neutral p : well_locked p = true ->
+  forall m f, In m all_mutexes -> In f (p_funcs p) ->
+  fn_kind f = KClosure \/ mem (fn_name f) (p_values p) = true ->
+  exists c, elab p m (fn_body f) = Some c /\ forall t st, thread_trace c t st -> t = [].
+Proof.
+  unfold well_locked, locks_ok. intros H m f Hm Hf Hv.
+  apply andb_prop in H. destruct H as [H _].
+  apply andb_prop in H. destruct H as [_ H].
+  rewrite forallb_forall in H. specialize (H m Hm). unfold mutex_ok in H.
+  apply andb_prop in H. destruct H as [H _].
+  rewrite forallb_forall in H. specialize (H f Hf). unfold fn_ok in H.
+  assert (Hn : neutral_ok p m (fn_body f) = true).
+  { destruct Hv as [Hk|Hv].
+    - rewrite Hk in H. exact H.
+    - destruct (fn_kind f); [|exact H]. rewrite Hv in H. apply andb_prop in H. tauto. }
+  unfold neutral_ok in Hn. destruct (elab p m (fn_body f)) as [c|]; [|discriminate].
+  exists c. split; [reflexivity|]. apply neutral_sound. exact Hn.
 Qed.
